@@ -163,6 +163,48 @@ def rule_s3(prog, rep, units, rid='S3'):
                                         if access_path(r) == c and access_path(l) == p:
                                             assigns.append(m)
                         rep.instance(rid)
+                        # the predecessor must be recorded before the cursor advances in that iteration
+                        late = None
+                        advs = []
+                        for i in body:
+                            m = cfg.nodes[i]
+                            if isinstance(m.ast, dict) and m.kind == 'act':
+                                order = []
+                                for x in walk(m.ast):
+                                    if x.get('kind') == 'BinaryOperator' and x.get('opcode') == '=':
+                                        l, r = children(x)
+                                        rs = strip(r)
+                                        if access_path(l) == c and rs.get('kind') == 'MemberExpr' and rs.get('name') == 'next' \
+                                                and access_path(children(rs)[0]) == c:
+                                            order.append(('adv', x.get('_off') or 0))
+                                        elif access_path(l) == p and access_path(r) == c:
+                                            order.append(('rec', x.get('_off') or 0))
+                                kinds = [k for (k, _o) in sorted(order, key=lambda t: t[1])]
+                                if 'adv' in kinds:
+                                    advs.append(m)
+                                    if 'rec' in kinds and kinds.index('adv') < len(kinds) - 1 - kinds[::-1].index('rec'):
+                                        late = m
+                        if late is None:
+                            for v in advs:
+                                # a path advance -> record that does not pass the loop head
+                                seen2 = set()
+                                work2 = [s2 for (s2, _l) in v.succs]
+                                while work2 and late is None:
+                                    m2 = work2.pop()
+                                    if m2 is head or m2.id in seen2 or m2.id not in body:
+                                        continue
+                                    seen2.add(m2.id)
+                                    if any(m2 is a for a in assigns):
+                                        late = m2
+                                        break
+                                    for (s2, _l) in m2.succs:
+                                        work2.append(s2)
+                        if late is not None:
+                            rep.oblige(rid, False, {'function': f.name, 'cursor': c, 'predecessor': p})
+                            rep.violation(rid, f, late.line, 'prev-late:%s' % p,
+                                          '`%s = %s` at line %s executes after the cursor has already advanced in that iteration: %s is the '
+                                          'cursor itself, not its predecessor, so the unlink corrupts the chain' % (p, c, late.line, p))
+                            continue
                         aset = {m.id for m in assigns}
                         # a cycle head -> ... -> head avoiding every `P = C`
                         bad = _cycle_avoiding(cfg, head, body, aset)
